@@ -38,6 +38,7 @@ type Program struct {
 	storeReadsCache  []*StoreRead
 	inl              *inliner
 	trivial          map[*ssa.Function]bool
+	nilGetter        map[*ssa.Function]string
 }
 
 // loadFailPanics: when set (seed loading), a load failure panics instead of exiting so that the caller can skip the seed.
@@ -77,7 +78,7 @@ func loadProgram(dir string, extraEnv []string, overlay map[string][]byte) *Prog
 		checkerFail("no packages loaded from %s", dir)
 	}
 	p := &Program{Dir: dir, AllPkgs: map[string]*packages.Package{}, SSAPkgs: map[string]*ssa.Package{},
-		exprers: map[*ssa.Function]*Exprer{}, fas: map[*ssa.Function]*FA{}, trivial: map[*ssa.Function]bool{}}
+		exprers: map[*ssa.Function]*Exprer{}, fas: map[*ssa.Function]*FA{}, trivial: map[*ssa.Function]bool{}, nilGetter: map[*ssa.Function]string{}}
 	nerr := 0
 	packages.Visit(pkgs, nil, func(pk *packages.Package) {
 		p.AllPkgs[pk.PkgPath] = pk
